@@ -1,12 +1,16 @@
 #!/bin/bash
 # usage: tools/try_seed.sh <property> <patch.diff> [extra ./check args]
 # Applies a seeded change to /repo, runs the property's check, and always restores /repo afterwards.
+# Holds the checks' global lock for the whole time, so that no other check compiles /repo while the change is applied.
 set -u
 P=$1; PATCH=$2; shift 2
+mkdir -p /verif/harness/target
+exec 9>/verif/harness/target/.check.lock
+flock 9
 cd /repo || exit 3
 if ! git diff --quiet; then echo "/repo has uncommitted changes; refusing"; exit 3; fi
 git apply "$PATCH" || { echo "patch does not apply"; exit 3; }
-cd /verif && VERIF_EVIDENCE_DIR=/verif/cex/evidence_seed ./check "$P" "$@"; rc=$?
+cd /verif && VERIF_LOCK_HELD=1 VERIF_EVIDENCE_DIR=/verif/cex/evidence_seed ./check "$P" "$@" 9>&-; rc=$?
 git -C /repo checkout -- .
 echo "try_seed: check exit code $rc"
 exit $rc
